@@ -83,6 +83,38 @@ def r1(ctx):
         # for i in range(n): grp[str(i)]
         idx = [n for n in walk_own(rloop) if isinstance(n, ast.Subscript) and U(n.slice).replace(" ", "") == f"str({U(rloop.target)})"]
         order = "numeric" if idx and len(it.args) == 1 else None
+    elif isinstance(it, ast.Name) and any(isinstance(n, ast.Assign) and len(n.targets) == 1 and U(n.targets[0]) == it.id and isinstance(n.value, (ast.ListComp, ast.List, ast.Call))
+                                          and not (isinstance(n.value, ast.Subscript)) for n in walk_own(lf.node)) \
+            and not any(isinstance(n, ast.Assign) and U(n.targets[0]) == it.id and isinstance(n.value, ast.Subscript) for n in walk_own(lf.node)):
+        # a local list of the group names (possibly decorated with their integer value) that is sorted before the loop
+        ldef = [n.value for n in walk_own(lf.node) if isinstance(n, ast.Assign) and len(n.targets) == 1 and U(n.targets[0]) == it.id]
+        sorts = [c for c in calls(lf.node, tail="sort") if U(c.func.value) == it.id]
+        order = None
+        if len(ldef) == 1 and isinstance(ldef[0], ast.ListComp) and len(ldef[0].generators) == 1 and isinstance(ldef[0].generators[0].target, ast.Name) and len(sorts) == 1:
+            nv = ldef[0].generators[0].target.id
+            elt = ldef[0].elt
+            fields = {}
+            if isinstance(elt, ast.Call) and elt.keywords and not elt.args:
+                fields = {k.arg: U(k.value).replace(" ", "") for k in elt.keywords}
+            elif isinstance(elt, (ast.Tuple, ast.Call)):
+                parts = elt.elts if isinstance(elt, ast.Tuple) else elt.args
+                fields = {str(i): U(x).replace(" ", "") for i, x in enumerate(parts)}
+            key = kwargs(sorts[0]).get("key")
+            kt = U(key).replace(" ", "") if key is not None else None
+            import re as _re
+            picked = None
+            if kt is not None:
+                m_ = _re.fullmatch(r"lambda(\w+):\1\.(\w+)", kt) or _re.fullmatch(r"lambda(\w+):\1\[(\d+)\]", kt)
+                if m_:
+                    picked = fields.get(m_.group(2))
+                m2_ = _re.fullmatch(r"(?:operator\.)?(?:attrgetter|itemgetter)\('?(\w+)'?\)", kt)
+                if m2_:
+                    picked = fields.get(m2_.group(1))
+            elif isinstance(elt, ast.Tuple):
+                picked = fields.get("0")
+            if picked == f"int({nv})" and not (kwargs(sorts[0]).get("reverse") is not None and U(kwargs(sorts[0])["reverse"]) != "False"):
+                order = "numeric"
+        detail = f"{it.id} = {U(ldef[0])[:60] if ldef else '?'}; {U(sorts[0])[:50] if sorts else 'unsorted'}"
     elif isinstance(it, ast.Call) and attr_tail(it) in ("keys", "values", "items") or isinstance(it, (ast.Name, ast.Subscript)):
         order = "creation" if tracked else "string"
     # zero-padded names of a fixed width sort like numbers only below 10^width: for every collection size only the numeric order is right
@@ -232,8 +264,11 @@ def r1(ctx):
               "shared parameters: attributes and whole datasets are both read back into one dict",
               "loader does not read back both the attributes and the whole datasets of the shared group")
     priv_grp = U(rloop.target)
+    def is_private_group(e):
+        e = inline(e, env)
+        return isinstance(e, ast.Subscript) and isinstance(e.value, ast.Name) and e.value.id in handles and isinstance(e.slice, ast.Constant) and e.slice.value == "private_params"
     pg = [n.targets[0].id for n in rloop.body if isinstance(n, ast.Assign) and isinstance(n.targets[0], ast.Name)
-          and isinstance(n.value, ast.Subscript) and U(n.value.slice) == priv_grp]
+          and isinstance(n.value, ast.Subscript) and (U(n.value.slice) == priv_grp or is_private_group(n.value.value))]
     ctx.check("R1", f"{lf.site()}::reads-attrs-and-datasets:private", order == "numeric" and bool(pg) and reader_ok(pg[0]) or (bool(pg) and reader_ok(pg[0])),
               "private parameters: attributes and whole datasets are both read back per sample",
               "loader does not read back both the attributes and the whole datasets of each sample group")
